@@ -49,7 +49,7 @@ def strategy(tier):
 
 
 def _strategy(tier):
-    cfg = {"max_depth": 3 if tier == "quick" else 4, "generics": True, "root_schema": True, "leaf_validators": True}
+    cfg = {"max_depth": 3 if tier == "quick" else 4, "generics": True, "root_schema": True, "leaf_validators": True, "class_validators": True}
     return tdcase.td_cases(cfg, n_data=(4, 10), mix=(5, 20, 60, 15))
 
 
